@@ -38,11 +38,25 @@ type FuncSpec struct {
 	Verify    bool // verify body
 	NilStrict bool
 	HoldsAtEntry []string
+	EntrySets []*GhostSet // ghost assignments that happen when the function is called (definitional)
+	Events    []Clause // ghost counters that calling this function increments (the call itself is the event)
+	GhostSets []*GhostSet
 	Escapes   []string // parameters whose pointee is retained by the callee (it may write it in later calls)
 	ModEscaped bool    // the callee may write every object that escaped earlier
 	Known     map[string]Clause // label -> region in which the clause is a recorded finding
 	Replay    ast.Expr          // call to a replay builder (verif-tagged Go function) with entry-state arguments
 	ReplayText string
+	ReplayPost ast.Expr // like Replay, arguments evaluated in the post state (for post obligations)
+}
+
+// GhostSet: ghost assignments executed before/after the k-th call to Callee inside the function
+// (specification-only state; keyed by call ordinal so that no function body is edited).
+type GhostSet struct {
+	When    string // "before" | "after"
+	Callee  string
+	Ord     int
+	Names   []string
+	Exprs   []ast.Expr
 }
 
 type LoopSpec struct {
@@ -70,6 +84,7 @@ type Specs struct {
 	Order  []string
 	Assumes []string
 	GhostVars map[string]string
+	GhostPkg  map[string]string // package (directory name) whose scope resolves the ghost variable's type
 }
 
 var propTagRe = regexp.MustCompile(`\[((?:C\d+)(?:\s*,\s*C\d+)*)\]\s*$`)
@@ -200,6 +215,7 @@ func splitTop(s, sep string) []string {
 
 func parseSpecExpr(text string) (ast.Expr, error) {
 	t := strings.ReplaceAll(text, "$", "ghost_")
+	t = strings.ReplaceAll(t, "[*]", "[all]")
 	t = rewriteImplies(t)
 	e, err := parser.ParseExpr(t)
 	if err != nil {
@@ -221,7 +237,7 @@ func mkClause(text string) (Clause, error) {
 
 // LoadSpecs reads //@ blocks from every zz_verif*.go file under the repo and *.spec under extern dir.
 func LoadSpecs(repo string, externDir string) (*Specs, error) {
-	sp := &Specs{Funcs: map[string]*FuncSpec{}, Loops: map[string]*LoopSpec{}, Types: map[string]*TypeSpec{}, Ifaces: map[string]*FuncSpec{}, GhostVars: map[string]string{}}
+	sp := &Specs{Funcs: map[string]*FuncSpec{}, Loops: map[string]*LoopSpec{}, Types: map[string]*TypeSpec{}, Ifaces: map[string]*FuncSpec{}, GhostVars: map[string]string{}, GhostPkg: map[string]string{}}
 	var files []string
 	for _, pk := range repoPkgs {
 		m, _ := filepath.Glob(filepath.Join(repo, pk, "zz_verif*.go"))
@@ -309,26 +325,32 @@ func (sp *Specs) parseFile(path string, extern bool) error {
 		case "requires", "ensures", "invariant", "modifies":
 			if word == "modifies" && curF != nil {
 				r, _ := splitProps(rest)
-				if r == "nothing" {
-					curF.ModAll, curF.ModNone = false, true
-					continue
-				}
-				if r == "*" {
-					curF.ModAll = true
-					continue
-				}
-				if r == "escaped" {
-					curF.ModAll = false
-					curF.ModEscaped = true
-					continue
-				}
-				curF.ModAll = false
+				star, real := false, false
 				for _, part := range splitTop(r, ",") {
-					c, err := mkClause(strings.TrimSpace(part))
-					if err != nil {
-						return fail(err)
+					part = strings.TrimSpace(part)
+					switch part {
+					case "*":
+						star = true
+					case "nothing":
+						real = true
+					case "escaped":
+						curF.ModEscaped = true
+						real = true
+					default:
+						c, err := mkClause(part)
+						if err != nil {
+							return fail(err)
+						}
+						curF.Modifies = append(curF.Modifies, c)
+						if !strings.Contains(part, "$") {
+							real = true
+						}
 					}
-					curF.Modifies = append(curF.Modifies, c)
+				}
+				if star {
+					curF.ModAll = true
+				} else if real {
+					curF.ModAll = false
 				}
 				continue
 			}
@@ -369,6 +391,99 @@ func (sp *Specs) parseFile(path string, extern bool) error {
 			if curF != nil {
 				curF.Pure = true
 			}
+		case "before", "after":
+			if curF == nil {
+				return fail(fmt.Errorf("%s outside func block", word))
+			}
+			// before|after <callee>#k set $a = e1; $b = e2
+			i := strings.Index(rest, " set ")
+			if i < 0 {
+				return fail(fmt.Errorf("%s <callee>#k set $x = e; ...", word))
+			}
+			target := strings.TrimSpace(rest[:i])
+			j := strings.LastIndex(target, "#")
+			if j < 0 {
+				return fail(fmt.Errorf("call ordinal missing"))
+			}
+			k, err := strconv.Atoi(target[j+1:])
+			if err != nil {
+				return fail(err)
+			}
+			gs := &GhostSet{When: word, Callee: target[:j], Ord: k}
+			for _, as := range splitTop(rest[i+5:], ";") {
+				as = strings.TrimSpace(as)
+				if as == "" {
+					continue
+				}
+				eq := indexTop(as, "=")
+				if eq < 0 || !strings.HasPrefix(as, "$") {
+					return fail(fmt.Errorf("ghost assignment %q", as))
+				}
+				e, err := parseSpecExpr(strings.TrimSpace(as[eq+1:]))
+				if err != nil {
+					return fail(err)
+				}
+				gs.Names = append(gs.Names, strings.TrimSpace(as[1:eq]))
+				gs.Exprs = append(gs.Exprs, e)
+			}
+			curF.GhostSets = append(curF.GhostSets, gs)
+		case "entry-set":
+			if curF == nil {
+				return fail(fmt.Errorf("entry-set outside func block"))
+			}
+			gs := &GhostSet{When: "entry"}
+			for _, as := range splitTop(rest, ";") {
+				as = strings.TrimSpace(as)
+				if as == "" {
+					continue
+				}
+				eq := indexTop(as, "=")
+				if eq < 0 || !strings.HasPrefix(as, "$") {
+					return fail(fmt.Errorf("ghost assignment %q", as))
+				}
+				name := strings.TrimSpace(as[1:eq])
+				rhs := strings.TrimSpace(as[eq+1:])
+				e, err := parseSpecExpr(rhs)
+				if err != nil {
+					return fail(err)
+				}
+				gs.Names = append(gs.Names, name)
+				gs.Exprs = append(gs.Exprs, e)
+				mc, err := mkClause("$" + name)
+				if err != nil {
+					return fail(err)
+				}
+				curF.ModNone = false
+				curF.Modifies = append(curF.Modifies, mc)
+				ec, err := mkClause("$" + name + " == old(" + rhs + ")")
+				if err != nil {
+					return fail(err)
+				}
+				ec.Label = "entry-set:" + name
+				curF.Ensures = append(curF.Ensures, ec)
+			}
+			curF.EntrySets = append(curF.EntrySets, gs)
+		case "event":
+			if curF == nil {
+				return fail(fmt.Errorf("event outside func block"))
+			}
+			r, props := splitProps(rest)
+			c, err := mkClause(r)
+			if err != nil {
+				return fail(err)
+			}
+			c.Props = props
+			curF.Events = append(curF.Events, c)
+			// sugar: modifies x; ensures x == old(x) + 1
+			curF.ModNone = false
+			curF.Modifies = append(curF.Modifies, c)
+			ec, err := mkClause(r + " == old(" + r + ") + 1")
+			if err != nil {
+				return fail(err)
+			}
+			ec.Props = props
+			ec.Label = "event:" + r
+			curF.Ensures = append(curF.Ensures, ec)
 		case "escapes":
 			if curF == nil {
 				return fail(fmt.Errorf("escapes outside func block"))
@@ -377,9 +492,10 @@ func (sp *Specs) parseFile(path string, extern bool) error {
 		case "ghostvar":
 			fs := strings.Fields(rest)
 			if len(fs) != 2 {
-				return fail(fmt.Errorf("ghostvar $name int|bool"))
+				return fail(fmt.Errorf("ghostvar $name <type>"))
 			}
 			sp.GhostVars[strings.TrimPrefix(fs[0], "$")] = fs[1]
+			sp.GhostPkg[strings.TrimPrefix(fs[0], "$")] = filepath.Base(filepath.Dir(path))
 		case "known":
 			if curF == nil {
 				return fail(fmt.Errorf("known outside func block"))
@@ -395,6 +511,15 @@ func (sp *Specs) parseFile(path string, extern bool) error {
 				curF.Known = map[string]Clause{}
 			}
 			curF.Known[c.Label] = c
+		case "replay-post":
+			if curF == nil {
+				return fail(fmt.Errorf("replay-post outside func block"))
+			}
+			e, err := parseSpecExpr(rest)
+			if err != nil {
+				return fail(err)
+			}
+			curF.ReplayPost = e
 		case "replay":
 			if curF == nil {
 				return fail(fmt.Errorf("replay outside func block"))
